@@ -284,7 +284,8 @@ class Ctx:
                 self.notes.append("%s: %d segments rejected; the remaining %d lines were left unexamined" % (module, len(failures), len(evs)))
                 self.log("strict validation of %s stopped after %d rejected segments" % (module, len(failures)))
                 break
-            tf = self.path("strict_%s_%d.ndjson" % (module, rounds))
+            fd, tf = tempfile.mkstemp(prefix="strict_%s_" % module, suffix=".ndjson", dir=self.scratch)
+            os.close(fd)
             write_jsonl(tf, evs)
             r = self.tlc_trace(module, cfg, tf, deque=deque, overrides=overrides, timeout=timeout)
             os.remove(tf)
